@@ -250,6 +250,56 @@ type APtr struct {
 	w   int // element width in bytes
 }
 
+// AAgg is an array or struct value (elements / fields in order); ARef points at one slot of an aggregate (a variable of
+// aggregate type is the single slot of a holder).
+type AAgg struct{ elems []aval }
+
+type ARef struct {
+	agg *AAgg
+	idx int
+}
+
+func (a *AAgg) deepCopy() *AAgg {
+	n := &AAgg{elems: make([]aval, len(a.elems))}
+	for i, e := range a.elems {
+		if sub, ok := e.(*AAgg); ok {
+			n.elems[i] = sub.deepCopy()
+		} else {
+			n.elems[i] = e
+		}
+	}
+	return n
+}
+
+// zeroOf builds the zero value of an aggregate or integer type (nil for anything else).
+func zeroOf(t types.Type) aval {
+	switch u := t.Underlying().(type) {
+	case *types.Array:
+		if u.Len() > 4096 {
+			return nil
+		}
+		a := &AAgg{elems: make([]aval, u.Len())}
+		for i := range a.elems {
+			a.elems[i] = zeroOf(u.Elem())
+		}
+		return a
+	case *types.Struct:
+		a := &AAgg{elems: make([]aval, u.NumFields())}
+		for i := range a.elems {
+			a.elems[i] = zeroOf(u.Field(i).Type())
+		}
+		return a
+	case *types.Basic:
+		if w, signed := typeWidth(u); w > 0 {
+			return constAInt(0, w, signed)
+		}
+		if u.Kind() == types.Bool {
+			return ABool{Known: true, Val: false}
+		}
+	}
+	return nil
+}
+
 type ABool struct {
 	Known bool
 	Val   bool
@@ -274,11 +324,35 @@ type emitResult struct {
 type absState struct {
 	env   map[ssa.Value]aval
 	mem   map[*ssa.Alloc]*backing
+	aggs  map[*ssa.Alloc]*AAgg // holder (one slot) of a local array/struct variable
 	conds []pathCond
 }
 
 func (s *absState) clone() *absState {
-	n := &absState{env: map[ssa.Value]aval{}, mem: map[*ssa.Alloc]*backing{}}
+	n := &absState{env: map[ssa.Value]aval{}, mem: map[*ssa.Alloc]*backing{}, aggs: map[*ssa.Alloc]*AAgg{}}
+	aggRemap := map[*AAgg]*AAgg{}
+	var cpAgg func(a *AAgg) *AAgg
+	cpAgg = func(a *AAgg) *AAgg {
+		if a == nil {
+			return nil
+		}
+		if x, ok := aggRemap[a]; ok {
+			return x
+		}
+		x := &AAgg{elems: make([]aval, len(a.elems))}
+		aggRemap[a] = x
+		for i, e := range a.elems {
+			if sub, ok := e.(*AAgg); ok {
+				x.elems[i] = cpAgg(sub)
+			} else {
+				x.elems[i] = e
+			}
+		}
+		return x
+	}
+	for k, v := range s.aggs {
+		n.aggs[k] = cpAgg(v)
+	}
 	remap := map[*backing]*backing{}
 	cp := func(b *backing) *backing {
 		if b == nil {
@@ -302,6 +376,11 @@ func (s *absState) clone() *absState {
 		case APtr:
 			x.bk = cp(x.bk)
 			n.env[k] = x
+		case ARef:
+			x.agg = cpAgg(x.agg)
+			n.env[k] = x
+		case *AAgg:
+			n.env[k] = cpAgg(x)
 		default:
 			n.env[k] = v
 		}
@@ -358,7 +437,7 @@ func (ai *absInterp) evalFunc(fn *ssa.Function, args []aval, conds []pathCond) [
 	}
 	ai.depth++
 	defer func() { ai.depth-- }()
-	st := &absState{env: map[ssa.Value]aval{}, mem: map[*ssa.Alloc]*backing{}, conds: append([]pathCond(nil), conds...)}
+	st := &absState{env: map[ssa.Value]aval{}, mem: map[*ssa.Alloc]*backing{}, aggs: map[*ssa.Alloc]*AAgg{}, conds: append([]pathCond(nil), conds...)}
 	for i, p := range fn.Params {
 		if i < len(args) {
 			st.env[p] = args[i]
@@ -473,6 +552,14 @@ func (ai *absInterp) runBlock(fn *ssa.Function, b, from *ssa.BasicBlock, st *abs
 
 func (ai *absInterp) store(st *absState, x *ssa.Store) {
 	addr := ai.val(st, x.Addr)
+	if rf, isRef := addr.(ARef); isRef && rf.agg != nil && rf.idx < len(rf.agg.elems) {
+		v := ai.val(st, x.Val)
+		if sub, isAgg := v.(*AAgg); isAgg {
+			v = sub.deepCopy()
+		}
+		rf.agg.elems[rf.idx] = v
+		return
+	}
 	p, ok := addr.(APtr)
 	if !ok || p.bk == nil {
 		return
@@ -559,6 +646,13 @@ func (ai *absInterp) val(st *absState, v ssa.Value) aval {
 			}
 		}
 	case *ssa.Global:
+		// a package-level table (array / struct of integers) that only its initialiser writes
+		if agg := constAggregate(c); agg != nil {
+			holder := &AAgg{elems: []aval{agg.deepCopy()}}
+			rf := ARef{agg: holder, idx: 0}
+			st.env[v] = rf
+			return rf
+		}
 		// a package-level byte array that is written only by its initialiser: a constant table
 		if bk := constByteArray(c); bk != nil {
 			cp := &backing{b: append([]AByte(nil), bk.b...)}
@@ -569,6 +663,29 @@ func (ai *absInterp) val(st *absState, v ssa.Value) aval {
 	case *ssa.Alloc:
 		// array allocation
 		if pt, ok := c.Type().Underlying().(*types.Pointer); ok {
+			isByteArr := false
+			if at, ok := pt.Elem().Underlying().(*types.Array); ok {
+				if ew, _ := typeWidth(at.Elem()); ew == 8 {
+					isByteArr = true
+				}
+			}
+			if !isByteArr {
+				switch pt.Elem().Underlying().(type) {
+				case *types.Array, *types.Struct:
+					h := st.aggs[c]
+					if h == nil {
+						z := zeroOf(pt.Elem())
+						if z == nil {
+							break
+						}
+						h = &AAgg{elems: []aval{z}}
+						st.aggs[c] = h
+					}
+					rf := ARef{agg: h, idx: 0}
+					st.env[v] = rf
+					return rf
+				}
+			}
 			if at, ok := pt.Elem().Underlying().(*types.Array); ok {
 				ew, _ := typeWidth(at.Elem())
 				if ew == 8 {
@@ -634,6 +751,27 @@ func (ai *absInterp) compute(st *absState, v ssa.Value) aval {
 			return ASlice{bk: b.bk, off: b.off + lo, len: hi - lo, cap: b.cap - lo}
 		}
 		return nil
+	case *ssa.FieldAddr:
+		if rf, ok := ai.val(st, x.X).(ARef); ok && rf.agg != nil && rf.idx < len(rf.agg.elems) {
+			if sub, ok := rf.agg.elems[rf.idx].(*AAgg); ok && x.Field < len(sub.elems) {
+				return ARef{agg: sub, idx: x.Field}
+			}
+		}
+		return nil
+	case *ssa.Field:
+		if sub, ok := ai.val(st, x.X).(*AAgg); ok && x.Field < len(sub.elems) {
+			return sub.elems[x.Field]
+		}
+		return nil
+	case *ssa.Index:
+		if sub, ok := ai.val(st, x.X).(*AAgg); ok {
+			if idx, _ := ai.val(st, x.Index).(*AInt); idx != nil {
+				if i, ok := idx.constVal(); ok && int(i) < len(sub.elems) {
+					return sub.elems[i]
+				}
+			}
+		}
+		return nil
 	case *ssa.IndexAddr:
 		base := ai.val(st, x.X)
 		idx, _ := ai.val(st, x.Index).(*AInt)
@@ -642,6 +780,12 @@ func (ai *absInterp) compute(st *absState, v ssa.Value) aval {
 		}
 		i, ok := idx.constVal()
 		if !ok {
+			return nil
+		}
+		if rf, isRef := base.(ARef); isRef && rf.agg != nil && rf.idx < len(rf.agg.elems) {
+			if sub, ok := rf.agg.elems[rf.idx].(*AAgg); ok && int(i) < len(sub.elems) {
+				return ARef{agg: sub, idx: int(i)}
+			}
 			return nil
 		}
 		switch b := base.(type) {
@@ -689,6 +833,13 @@ func (ai *absInterp) compute(st *absState, v ssa.Value) aval {
 				return ABool{Atom: "!" + b.Atom, Src: x}
 			}
 		case token.MUL:
+			if rf, ok := ai.val(st, x.X).(ARef); ok && rf.agg != nil && rf.idx < len(rf.agg.elems) {
+				e := rf.agg.elems[rf.idx]
+				if sub, isAgg := e.(*AAgg); isAgg {
+					return sub.deepCopy()
+				}
+				return e
+			}
 			// load through a byte pointer
 			if p, ok := ai.val(st, x.X).(APtr); ok && p.w == 1 && p.off < len(p.bk.b) {
 				b := p.bk.b[p.off]
@@ -1498,4 +1649,208 @@ func constByteArray(g *ssa.Global) *backing {
 	}
 	constArrMemo[g] = bk
 	return bk
+}
+
+var constAggMemo = map[*ssa.Global]*AAgg{}
+var constAggDone = map[*ssa.Global]bool{}
+
+// constAggregate returns the contents of an unexported package-level array/struct variable (of integers, nested) when the
+// package initialiser fills it with constants and nothing else in its package stores through it or lets its address
+// escape (elements are only read; whole-value loads are allowed). nil otherwise. Byte arrays are handled by constByteArray.
+func constAggregate(g *ssa.Global) *AAgg {
+	if constAggDone[g] {
+		return constAggMemo[g]
+	}
+	constAggDone[g] = true
+	pt, ok := g.Type().Underlying().(*types.Pointer)
+	if !ok || (g.Object() != nil && g.Object().Exported()) {
+		return nil
+	}
+	switch u := pt.Elem().Underlying().(type) {
+	case *types.Array:
+		if ew, _ := typeWidth(u.Elem()); ew == 8 {
+			return nil
+		}
+	case *types.Struct:
+	default:
+		return nil
+	}
+	root, _ := zeroOf(pt.Elem()).(*AAgg)
+	if root == nil {
+		return nil
+	}
+	holder := &AAgg{elems: []aval{root}}
+	okAll := true
+	var fns []*ssa.Function
+	var addAnon func(f *ssa.Function)
+	addAnon = func(f *ssa.Function) {
+		fns = append(fns, f)
+		for _, a := range f.AnonFuncs {
+			addAnon(a)
+		}
+	}
+	for _, m := range g.Pkg.Members {
+		switch x := m.(type) {
+		case *ssa.Function:
+			addAnon(x)
+		case *ssa.Type:
+			for _, t := range []types.Type{x.Type(), types.NewPointer(x.Type())} {
+				ms := g.Pkg.Prog.MethodSets.MethodSet(t)
+				for i := 0; i < ms.Len(); i++ {
+					if mf := g.Pkg.Prog.MethodValue(ms.At(i)); mf != nil && mf.Pkg == g.Pkg && mf.Blocks != nil {
+						addAnon(mf)
+					}
+				}
+			}
+		}
+	}
+	// address paths rooted at g: g → IndexAddr/FieldAddr chains; leaves may be loaded anywhere, stored (constants) in init only
+	var follow func(v ssa.Value, ref ARef, isInit bool)
+	follow = func(v ssa.Value, ref ARef, isInit bool) {
+		refs := v.Referrers()
+		if refs == nil {
+			return
+		}
+		for _, r := range *refs {
+			switch x := r.(type) {
+			case *ssa.IndexAddr:
+				ic, isC := x.Index.(*ssa.Const)
+				sub, isAgg := ref.agg.elems[ref.idx].(*AAgg)
+				if x.X != v {
+					continue
+				}
+				if !isAgg {
+					okAll = false
+					continue
+				}
+				if !isC {
+					// dynamic index: reading only
+					for _, r2 := range *x.Referrers() {
+						if u, ok := r2.(*ssa.UnOp); !ok || u.Op != token.MUL {
+							if _, isFA := r2.(*ssa.FieldAddr); isFA {
+								for _, r3 := range *r2.(*ssa.FieldAddr).Referrers() {
+									if u3, ok := r3.(*ssa.UnOp); !ok || u3.Op != token.MUL {
+										okAll = false
+									}
+								}
+								continue
+							}
+							okAll = false
+						}
+					}
+					continue
+				}
+				i := int(ic.Int64())
+				if i < 0 || i >= len(sub.elems) {
+					okAll = false
+					continue
+				}
+				follow(x, ARef{agg: sub, idx: i}, isInit)
+			case *ssa.FieldAddr:
+				if x.X != v {
+					continue
+				}
+				sub, isAgg := ref.agg.elems[ref.idx].(*AAgg)
+				if !isAgg || x.Field >= len(sub.elems) {
+					okAll = false
+					continue
+				}
+				follow(x, ARef{agg: sub, idx: x.Field}, isInit)
+			case *ssa.UnOp:
+				if x.Op != token.MUL {
+					okAll = false
+				}
+			case *ssa.Store:
+				if x.Addr != v || !isInit {
+					okAll = false
+					continue
+				}
+				cv, isC := x.Val.(*ssa.Const)
+				if !isC || cv.Value == nil {
+					okAll = false
+					continue
+				}
+				w, signed := typeWidth(cv.Type())
+				if w == 0 {
+					okAll = false
+					continue
+				}
+				if u, ok := constant.Uint64Val(cv.Value); ok {
+					ref.agg.elems[ref.idx] = constAInt(u, w, signed)
+				} else if i, ok := constant.Int64Val(cv.Value); ok {
+					ref.agg.elems[ref.idx] = constAInt(uint64(i), w, signed)
+				} else {
+					okAll = false
+				}
+			case *ssa.DebugRef:
+			default:
+				okAll = false
+			}
+		}
+	}
+	// globals have no referrer lists: scan the package for instructions that use g directly
+	for _, f := range fns {
+		isInit := f.Name() == "init" && f.Parent() == nil && f.Signature.Recv() == nil
+		for _, b := range f.Blocks {
+			for _, ins := range b.Instrs {
+				uses := false
+				for _, op := range ins.Operands(nil) {
+					if op != nil && *op == ssa.Value(g) {
+						uses = true
+					}
+				}
+				if !uses {
+					continue
+				}
+				switch x := ins.(type) {
+				case *ssa.IndexAddr:
+					if x.X != ssa.Value(g) {
+						okAll = false
+						continue
+					}
+					ic, isC := x.Index.(*ssa.Const)
+					if !isC {
+						for _, r2 := range *x.Referrers() {
+							if u, ok := r2.(*ssa.UnOp); !ok || u.Op != token.MUL {
+								if fa, isFA := r2.(*ssa.FieldAddr); isFA {
+									for _, r3 := range *fa.Referrers() {
+										if u3, ok := r3.(*ssa.UnOp); !ok || u3.Op != token.MUL {
+											okAll = false
+										}
+									}
+									continue
+								}
+								okAll = false
+							}
+						}
+						continue
+					}
+					i := int(ic.Int64())
+					if i < 0 || i >= len(root.elems) {
+						okAll = false
+						continue
+					}
+					follow(x, ARef{agg: root, idx: i}, isInit)
+				case *ssa.FieldAddr:
+					if x.X != ssa.Value(g) || x.Field >= len(root.elems) {
+						okAll = false
+						continue
+					}
+					follow(x, ARef{agg: root, idx: x.Field}, isInit)
+				case *ssa.UnOp:
+					if x.Op != token.MUL {
+						okAll = false
+					}
+				default:
+					okAll = false
+				}
+			}
+		}
+	}
+	_ = holder
+	if !okAll {
+		return nil
+	}
+	constAggMemo[g] = root
+	return root
 }
